@@ -36,7 +36,8 @@ def gen_case(rng, serial):
     border, mask = source(), source()
     if rng.random() < 0.5:
         mask = ('none', None)
-    return {'serial': serial, 'visible': rng.random() < 0.9, 'border': border, 'mask': mask,
+    return {'serial': serial, 'visible': rng.random() < 0.85, 'invisible': rng.choice(['hidden', 'collapse']), 'border': border,
+            'mask': mask,
             'widths': rng.choice(['2px solid', '2px solid', '3px dashed red', '0 solid', 'none', '2px solid transparent'])}
 
 
@@ -59,7 +60,7 @@ def html_of(case, border=None, mask=None, widths=None):
     widths = case['widths'] if widths is None else widths
     style = (f'border:{widths};border-image-source:{css("border", border)};border-image-slice:1;'
              f'mask-border-source:{css("mask", mask)};mask-border-slice:1;'
-             + ('' if case['visible'] else 'visibility:hidden;') + 'width:40px;height:20px;background:lime')
+             + ('' if case['visible'] else f'visibility:{case.get("invisible", "hidden")};') + 'width:40px;height:20px;background:lime')
     return ('<html><head><style>@page{size:200px 100px;margin:5px}body{margin:0}</style></head><body>'
             f'<div style="{style}">x</div></body></html>')
 
